@@ -87,15 +87,14 @@ ShapeOK(cls, n, asc, bare) ==
 \* axes (k..., b...) fused as rows = k, columns = b.  conjOnKet = the copy that keeps the ket
 \* indices is the conjugated one (this is what partial_trace_to_mpo does: self.H keeps "k{}")
 RhoImpl(psi, dims, sites, conjOnKet) ==
-  LET rest == RestOf(dims, sites)
-      ns   == SiteSize(dims, sites)
-      nr   == SiteSize(dims, rest)
-      offS == [a \in 1..ns |-> Off(dims, sites, a - 1)]
-      offR == [r \in 1..nr |-> Off(dims, rest, r - 1)]
-      ket(a, r) == IF conjOnKet THEN GConj(psi[offS[a] + offR[r] + 1]) ELSE psi[offS[a] + offR[r] + 1]
-      bra(b, r) == IF conjOnKet THEN psi[offS[b] + offR[r] + 1] ELSE GConj(psi[offS[b] + offR[r] + 1])
-  IN  Mat(ns, [n \in 1..(ns * ns) |->
-                 SumG(LAMBDA r : GMul(ket(((n - 1) \div ns) + 1, r), bra(((n - 1) % ns) + 1, r)), 1, nr)])
+  LET ns == SiteSize(dims, sites)
+      nr == SiteSize(dims, RestOf(dims, sites))
+  IN  Let1(OffTable(dims, sites), LAMBDA offS :
+      Let1(OffTable(dims, RestOf(dims, sites)), LAMBDA offR :
+        LET ket(a, r) == IF conjOnKet THEN GConj(psi[offS[a] + offR[r] + 1]) ELSE psi[offS[a] + offR[r] + 1]
+            bra(b, r) == IF conjOnKet THEN psi[offS[b] + offR[r] + 1] ELSE GConj(psi[offS[b] + offR[r] + 1])
+        IN  Mat(ns, MkSeq(LAMBDA n : SumG(LAMBDA r : GMul(ket(((n - 1) \div ns) + 1, r), bra(((n - 1) % ns) + 1, r)), 1, nr),
+                          1, ns * ns))))
 
 Families == {"rho_tensordot", "trace_G_rho", "rho_G_10", "G_rho_10", "gate_overlap"}
 
@@ -106,9 +105,8 @@ Families == {"rho_tensordot", "trace_G_rho", "rho_G_10", "G_rho_10", "gate_overl
 \*  rho_G_10      : tensordot(rho, G, ((0, 1), (1, 0)))                 compressed contraction
 \*  G_rho_10      : tensordot(G, rho, ((0, 1), (1, 0)))                 PEPS3D
 \*  gate_overlap  : ket.gate(G, where) | bra                            1D environments, 2D plaquettes
-FamilyNum(fam, psi, dims, sites, G, mut) ==
-  LET rho == RhoImpl(psi, dims, sites, mut = "conj_on_ket")
-      ns  == rho.rows
+FamilyNumOf(fam, rho, psi, dims, sites, G, mut) ==
+  LET ns  == rho.rows
       E(M, i, j) == MatEntry(M, i, j)
       pairs(F(_, _)) == SumG(LAMBDA n : F(((n - 1) \div ns) + 1, ((n - 1) % ns) + 1), 1, ns * ns)
   IN  CASE fam = "rho_tensordot" -> pairs(LAMBDA k, b : GMul(E(rho, k, b), E(G, b, k)))
@@ -118,16 +116,18 @@ FamilyNum(fam, psi, dims, sites, G, mut) ==
                                     THEN pairs(LAMBDA a, b : GMul(E(G, a, b), E(rho, a, b)))
                                     ELSE pairs(LAMBDA a, b : GMul(E(G, a, b), E(rho, b, a)))
         [] fam = "gate_overlap"  ->
-             LET rest == RestOf(dims, sites)
-                 nr   == SiteSize(dims, rest)
-                 offS == [a \in 1..ns |-> Off(dims, sites, a - 1)]
-                 offR == [r \in 1..nr |-> Off(dims, rest, r - 1)]
-                 \* gated ket: G's column (input) index meets the old physical index
-                 gk(a, r) == SumG(LAMBDA b : GMul(IF mut = "gate_transposed" THEN E(G, b, a) ELSE E(G, a, b),
-                                                  psi[offS[b] + offR[r] + 1]), 1, ns)
-             IN  SumG(LAMBDA m : LET a == ((m - 1) \div nr) + 1
-                                     r == ((m - 1) % nr) + 1
-                                 IN  GMul(GConj(psi[offS[a] + offR[r] + 1]), gk(a, r)), 1, ns * nr)
+             LET nr == SiteSize(dims, RestOf(dims, sites)) IN
+             Let1(OffTable(dims, sites), LAMBDA offS :
+             Let1(OffTable(dims, RestOf(dims, sites)), LAMBDA offR :
+               \* gated ket: G's column (input) index meets the old physical index
+               LET gk(a, r) == SumG(LAMBDA b : GMul(IF mut = "gate_transposed" THEN E(G, b, a) ELSE E(G, a, b),
+                                                    psi[offS[b] + offR[r] + 1]), 1, ns)
+               IN  SumG(LAMBDA m : LET a == ((m - 1) \div nr) + 1
+                                       r == ((m - 1) % nr) + 1
+                                   IN  GMul(GConj(psi[offS[a] + offR[r] + 1]), gk(a, r)), 1, ns * nr)))
+FamilyNum(fam, psi, dims, sites, G, mut) ==
+  Let1(IF fam = "gate_overlap" THEN Mat(SiteSize(dims, sites), <<>>) ELSE RhoImpl(psi, dims, sites, mut = "conj_on_ket"),
+       LAMBDA rho : Let1(G, LAMBDA GG : FamilyNumOf(fam, rho, psi, dims, sites, GG, mut)))
 
 \* where the normalisation comes from: the trace of the same rho, or a separately contracted <psi|psi>
 FamilyDen(fam, psi, dims, sites, mut) ==
